@@ -329,6 +329,22 @@ def step (d : Drv) (cmd : List Sexp) : Drv × String :=
         let d := if d.f04.contains ln || d.f04.contains rn then { d with f04 := n :: d.f04 } else d
         (d.setDirect n dv).report n (if res.isSame then "same" else "new") (.ok (res.get l))
     | _, _, _, _ => (d, "bad-ref")
+  -- (joinmax rN rL rR (COLS) PRED (opts ...)): Join(pred, max_columns=COLS).partial(rR).apply(rL, ...)
+  | [atom "joinmax", atom n, atom ln, atom rn, list cs, px, ox] =>
+    match d.rel? ln, d.rel? rn, decCols d.env cs, decPred d.env px, decOpts d ox with
+    | some l, some r, some cap, some p, some o =>
+      match l.joinMax d.store r p cap o with
+      | .error e => (d, errLine e)
+      | .ok res =>
+        let dv : Option (Cols × List Row × Bool) :=
+          match d.direct? ln, d.direct? rn with
+          | some (lc, lr, lk), some (rc, rr, rk) =>
+            let common := Cols.inter (Cols.keys (Cols.inter lc rc)) cap
+            some (lc.union rc, joinRows common p lr rr, lk && rk)
+          | _, _ => none
+        let d := if d.f04.contains ln || d.f04.contains rn then { d with f04 := n :: d.f04 } else d
+        (d.setDirect n dv).report n (if res.isSame then "same" else "new") (.ok (res.get l))
+    | _, _, _, _, _ => (d, "bad-ref")
   -- (joinon rN rL rR (COLS) PRED bt tr): join with explicit common columns
   | [atom "joinon", atom n, atom ln, atom rn, list cs, px, atom bt, atom tr] =>
     match d.rel? ln, d.rel? rn, decCols d.env cs, decPred d.env px, decBool bt, decBool tr with
